@@ -188,6 +188,32 @@ class Rat:
     __repr__ = key
 
 
+SQRT_REGISTRY: Dict[str, "Rat"] = {}  # atom name `sqrt[key]` -> the radicand it stands for
+
+
+def desqrt(r: "Rat") -> "Rat":
+    """Replace even powers of sqrt atoms by powers of their radicand (sqrt[K]^2 -> K)."""
+    def conv(p: Poly) -> "Rat":
+        acc = Rat.const(0)
+        for mono, c in p.t.items():
+            term = Rat.const(c)
+            for a, e in mono:
+                if a in SQRT_REGISTRY and e >= 2:
+                    k, rem = divmod(e, 2)
+                    rad = SQRT_REGISTRY[a]
+                    for _ in range(k):
+                        term = term * rad
+                    if rem:
+                        term = term * Rat.atom(a)
+                else:
+                    base = Rat.atom(a)
+                    for _ in range(e):
+                        term = term * base
+            acc = acc + term
+        return acc
+    return conv(r.n) / conv(r.d)
+
+
 CAST_FUNCS = {"float64", "float", "int64", "float32", "int", "int32", "int16"}
 SQRT_FUNCS = {"sqrt"}
 
@@ -357,6 +383,7 @@ class Normaliser:
                     return Rat(b.n ** k, b.d ** k)
                 return Rat(b.d ** (-k), b.n ** (-k))
             if ev.denominator == 2:
+                SQRT_REGISTRY[f"sqrt[{b.key()}]"] = b
                 s = Poly.atom(f"sqrt[{b.key()}]")
                 k = int(ev.numerator)
                 return Rat(s ** k) if k >= 0 else Rat(Poly.const(1), s ** (-k))
